@@ -1387,6 +1387,34 @@ def interplay_docs() -> list[tuple[str, dict]]:
     return out
 
 
+def cross_tag_docs() -> list[tuple[str, dict]]:
+    """Operations whose derived module names coincide across tags (getItem / get_item / get-item) but which differ in
+    method, path, parameters, body and response; some carry several tags.  A module is unique per tag only."""
+    R = lambda n: {"$ref": f"#/components/schemas/{n}"}  # noqa: E731
+    out = []
+    for version in ("3.0.3", "3.1.0"):
+        d = base_doc(version, "Cross tag names")
+        d["components"]["schemas"] = {"Item": {"type": "object", "required": ["sku"], "properties": {"sku": {"type": "string"}, "qty": {"type": "integer"}}},
+                                      "Report": {"type": "object", "required": ["total"], "properties": {"total": {"type": "number"}, "lines": {"type": "array", "items": {"type": "string"}}}},
+                                      "Note": {"type": "object", "properties": {"text": {"type": "string"}}}}
+        J = lambda sch: {"application/json": {"schema": sch}}  # noqa: E731
+        d["paths"] = {
+            "/items/{item_id}": {"get": {"operationId": "getItem", "tags": ["sales", "catalog"], "parameters": [{"name": "item_id", "in": "path", "required": True, "schema": {"type": "integer"}}, {"name": "expand", "in": "query", "schema": {"type": "boolean"}}],
+                                         "responses": {"200": {"description": "ok", "content": J(R("Item"))}}}},
+            "/stock/item": {"delete": {"operationId": "get_item", "tags": ["stock"], "parameters": [{"name": "X-Reason", "in": "header", "schema": {"type": "string"}}], "responses": {"200": {"description": "ok", "content": J(R("Report"))}, "204": {"description": "gone"}}}},
+            "/legacy/item": {"post": {"operationId": "get-item", "tags": ["legacy", "sales"], "requestBody": {"content": J(R("Note"))}, "responses": {"201": {"description": "made", "content": J(R("Note"))}}}},
+            # same signature (no arguments), different documented responses
+            "/summary": {"get": {"operationId": "getSummary", "tags": ["sales"], "responses": {"200": {"description": "ok", "content": J(R("Report"))}, "404": {"description": "none"}}}},
+            "/stock/summary": {"get": {"operationId": "get_summary", "tags": ["stock"], "responses": {"200": {"description": "ok", "content": J(R("Item"))}, "202": {"description": "later", "content": J({"type": "array", "items": R("Note")})}}}},
+            "/legacy/summary": {"get": {"operationId": "get-summary", "tags": ["legacy", "stock"], "responses": {"200": {"description": "ok", "content": {"text/plain": {"schema": {"type": "string"}}}}}}},
+            "/reports": {"get": {"operationId": "getReport", "tags": ["sales"], "responses": {"200": {"description": "ok", "content": J(R("Report"))}}}},
+            "/stock/reports/{day}": {"put": {"operationId": "get_report", "tags": ["stock", "legacy"], "parameters": [{"name": "day", "in": "path", "required": True, "schema": {"type": "string", "format": "date"}}],
+                                              "requestBody": {"content": J({"type": "array", "items": R("Item")})}, "responses": {"200": {"description": "ok", "content": J({"type": "array", "items": R("Item")})}}}},
+        }
+        out.append((f"cross_tag:{version}", d))
+    return out
+
+
 def shared_enum_param_docs() -> list[tuple[str, dict]]:
     """An enum listing null, declared once and visited for several operations (path-item level, components/parameters,
     a component schema used by several parameters and properties): every use is nullable, not only the first."""
